@@ -440,6 +440,13 @@ func (t *tapConn) Write(b []byte) (int, error) {
 		buf = buf[len(buf)-n:]
 	}
 	t.tail = append([]byte(nil), buf...)
+	// a write on a closed connection must fail (as on a real socket): the writer goroutine of a pipe whose
+	// reader has gone is woken with a PING and only leaves when writing it fails
+	select {
+	case <-t.done:
+		return 0, net.ErrClosed
+	default:
+	}
 	select {
 	case t.q <- append([]byte(nil), b...):
 		return len(b), nil
